@@ -1,8 +1,1205 @@
-(* Proofs about Model/Diagonal.v (property C11). *)
+(* Proofs about Model/Diagonal.v (property C11).  The moveaxis permutation model and the n-d index
+   lemmas are those of Lemmas/AxesL.v (imported read-only). *)
 From Coq Require Import ZArith NArith List Bool Lia Permutation.
 From Furax Require Import Model.Axes Lemmas.AxesL Model.Diagonal.
 Import ListNotations.
 Open Scope nat_scope.
 
+(* ========================================================================================== *)
+(* 1. axis_destination forms *)
+
 Lemma scalar_axes_length : forall nd a, length (scalar_axes nd a) = nd.
 Proof. intros. unfold scalar_axes. destruct (0 <=? a)%Z; rewrite map_length, seq_length; reflexivity. Qed.
+
+Lemma nth_map_seq0 : forall (A : Type) (f : nat -> A) n k d, k < n -> nth k (map f (seq 0 n)) d = f k.
+Proof.
+  intros A f n k d Hk. rewrite (nth_indep _ d (f 0)) by (rewrite map_length, seq_length; exact Hk).
+  rewrite map_nth. rewrite seq_nth by exact Hk. reflexivity.
+Qed.
+
+(* a >= 0: (a, a+1, ..., a+nd-1);  a < 0: (a-nd+1, ..., a-1, a) *)
+Lemma scalar_axes_nth : forall nd a k, k < nd ->
+  nth k (scalar_axes nd a) 0%Z =
+  (if (0 <=? a)%Z then a + Z.of_nat k else a - Z.of_nat (nd - 1 - k))%Z.
+Proof.
+  intros nd a k Hk. unfold scalar_axes. destruct (0 <=? a)%Z; rewrite nth_map_seq0 by exact Hk; lia.
+Qed.
+
+Lemma scalar_forms : forall cls v a ins,
+  Diag_ctor cls v (AInt a) ins =
+  Diag_ctor cls v (ASeq (match v with VLeaf vs => scalar_axes (length vs) a | VTree => [] end)) ins.
+Proof. intros cls [vs|] a ins; reflexivity. Qed.
+
+(* ========================================================================================== *)
+(* 2. _normalize_axes, left/right broadcast dimensions *)
+
+Lemma has_dup_false : forall l, has_dup l = false <-> NoDup l.
+Proof.
+  induction l as [|a l IH]; simpl.
+  - split; [constructor | reflexivity].
+  - rewrite orb_false_iff, IH. split.
+    + intros [H1 H2]. constructor; [|exact H2]. intros Hin.
+      assert (E : existsb (Z.eqb a) l = true) by (apply existsb_exists; exists a; split; [exact Hin | apply Z.eqb_refl]).
+      congruence.
+    + intros H. inversion H as [|? ? Hn Hd]; subst. split; [|exact Hd].
+      destruct (existsb (Z.eqb a) l) eqn:E; [|reflexivity].
+      apply existsb_exists in E. destruct E as [x [Hx Ex]]. apply Z.eqb_eq in Ex. subst. contradiction.
+Qed.
+
+Lemma normalize_axes_ok : forall axes r ax,
+  normalize_axes axes r = Ok ax <-> (ax = map (norm_axis r) axes /\ NoDup ax).
+Proof.
+  intros axes r ax. unfold normalize_axes.
+  destruct (has_dup (map (norm_axis r) axes)) eqn:E.
+  - split; [discriminate|]. intros [E1 E2]. subst. apply has_dup_false in E2. congruence.
+  - apply has_dup_false in E. split.
+    + intros H. inversion H. subst. split; [reflexivity | exact E].
+    + intros [E1 _]. subst. reflexivity.
+Qed.
+
+Lemma normalize_axes_err : forall axes r e,
+  normalize_axes axes r = Err e -> e = ValueError /\ ~ NoDup (map (norm_axis r) axes).
+Proof.
+  intros axes r e. unfold normalize_axes. destruct (has_dup (map (norm_axis r) axes)) eqn:E; [|discriminate].
+  intros H. inversion H. split; [reflexivity|]. intros ND. apply has_dup_false in ND. congruence.
+Qed.
+
+Lemma fold_min_le : forall l a x, In x (a :: l) -> (fold_right Z.min a l <= x)%Z.
+Proof.
+  induction l as [|b l IH]; intros a x H; simpl in *.
+  - destruct H as [H|[]]. lia.
+  - destruct H as [H|[H|H]].
+    + subst. specialize (IH x x (or_introl eq_refl)). lia.
+    + subst. lia.
+    + specialize (IH a x (or_intror H)). lia.
+Qed.
+
+Lemma fold_max_ge : forall l a x, In x (a :: l) -> (x <= fold_right Z.max a l)%Z.
+Proof.
+  induction l as [|b l IH]; intros a x H; simpl in *.
+  - destruct H as [H|[]]. lia.
+  - destruct H as [H|[H|H]].
+    + subst. specialize (IH x x (or_introl eq_refl)). lia.
+    + subst. lia.
+    + specialize (IH a x (or_intror H)). lia.
+Qed.
+
+Lemma fold_min_In : forall l a, In (fold_right Z.min a l) (a :: l).
+Proof.
+  induction l as [|b l IH]; intros a; simpl; [left; reflexivity|].
+  destruct (IH a) as [H|H].
+  - destruct (Z.min_spec b (fold_right Z.min a l)) as [[_ E]|[_ E]]; rewrite E; [right; left; reflexivity|].
+    left. exact H.
+  - destruct (Z.min_spec b (fold_right Z.min a l)) as [[_ E]|[_ E]]; rewrite E; [right; left; reflexivity|].
+    right. right. exact H.
+Qed.
+
+Lemma fold_max_In : forall l a, In (fold_right Z.max a l) (a :: l).
+Proof.
+  induction l as [|b l IH]; intros a; simpl; [left; reflexivity|].
+  destruct (IH a) as [H|H].
+  - destruct (Z.max_spec b (fold_right Z.max a l)) as [[_ E]|[_ E]]; rewrite E; [left; exact H|].
+    right; left; reflexivity.
+  - destruct (Z.max_spec b (fold_right Z.max a l)) as [[_ E]|[_ E]]; rewrite E; [right; right; exact H|].
+    right; left; reflexivity.
+Qed.
+
+(* what the two numbers are: the least L, R >= 0 such that every axis + L lies in [0, L + r + R) *)
+Definition lr_spec (ax : list Z) (r L R : nat) : Prop :=
+  (forall a, In a ax -> 0 <= a + Z.of_nat L < Z.of_nat (L + R + r))%Z /\
+  (L = 0 \/ In (- Z.of_nat L)%Z ax) /\
+  (R = 0 \/ In (Z.of_nat (r + R) - 1)%Z ax).
+
+Lemma lr_dims_spec : forall ax r L R, lr_dims ax r = Ok (L, R) -> ax <> [] /\ lr_spec ax r L R.
+Proof.
+  intros [|a l] r L R H; simpl in H; [discriminate|]. inversion H as [[HL HR]]. clear H.
+  split; [discriminate|].
+  set (mn := fold_right Z.min a l) in *. set (mx := fold_right Z.max a l) in *.
+  pose proof (fold_min_In l a) as Hmn. pose proof (fold_max_In l a) as Hmx. fold mn in Hmn. fold mx in Hmx.
+  unfold lr_spec. split; [|split].
+  - intros x Hx. pose proof (fold_min_le l a x Hx) as H1. pose proof (fold_max_ge l a x Hx) as H2.
+    fold mn in H1. fold mx in H2. lia.
+  - destruct (Z_lt_le_dec mn 0) as [Hneg|Hpos].
+    + right. match goal with |- In ?t _ => replace t with mn by lia end. exact Hmn.
+    + left. lia.
+  - destruct (Z_lt_le_dec (mx - Z.of_nat r + 1) 1) as [Hs|Hb].
+    + left. lia.
+    + right. match goal with |- In ?t _ => replace t with mx by lia end. exact Hmx.
+Qed.
+
+Lemma lr_dims_nonempty : forall ax r, ax <> [] -> exists L R, lr_dims ax r = Ok (L, R).
+Proof. intros [|a l] r H; [congruence|]. simpl. eauto. Qed.
+
+Lemma lr_dims_err : forall ax r e, lr_dims ax r = Err e -> ax = [] /\ e = ValueError.
+Proof. intros [|a l] r e H; simpl in H; inversion H. split; reflexivity. Qed.
+
+(* ========================================================================================== *)
+(* 3. the reshaped diagonal: jnp.moveaxis(diagonal.reshape(shape + (1,)*n), range(nd), axes + left) *)
+
+Definition shifted (L : nat) (ax : list Z) : list nat := map (fun a => Z.to_nat (a + Z.of_nat L)%Z) ax.
+
+(* its shape: the k-th value axis at position ax_k + left, unit axes elsewhere *)
+Definition dspec (vs : shape) (axn : list nat) (T : nat) : shape :=
+  map (fun m => nth (index_of m axn) vs 1) (seq 0 T).
+
+Lemma nth_ones : forall n k d, k < n -> nth k (ones n) d = 1.
+Proof. unfold ones. induction n as [|n IH]; intros k d Hk; [lia|]. destruct k; simpl; [reflexivity | apply IH; lia]. Qed.
+
+Lemma ones_length : forall n, length (ones n) = n.
+Proof. intros. apply repeat_length. Qed.
+
+Lemma index_of_notin : forall m l, ~ In m l -> index_of m l = length l.
+Proof.
+  induction l as [|x l IH]; intros H; simpl; [reflexivity|].
+  destruct (x =? m) eqn:E; [apply Nat.eqb_eq in E; subst; exfalso; apply H; left; reflexivity|].
+  f_equal. apply IH. intros Hin. apply H. right. exact Hin.
+Qed.
+
+Lemma NoDup_map_inj_in : forall (A B : Type) (f : A -> B) l,
+  (forall x y, In x l -> In y l -> f x = f y -> x = y) -> NoDup l -> NoDup (map f l).
+Proof.
+  intros A B f. induction l as [|a l IH]; intros Hinj ND; simpl; [constructor|].
+  inversion ND as [|? ? Hn Hd]; subst. constructor.
+  - intros Hin. apply in_map_iff in Hin. destruct Hin as [x [E Hx]].
+    assert (x = a) by (apply Hinj; [right; exact Hx | left; reflexivity | exact E]). subst. contradiction.
+  - apply IH; [|exact Hd]. intros x y Hx Hy. apply Hinj; right; assumption.
+Qed.
+
+Lemma nz_of_nat : forall T k, nz T (Z.of_nat k) = k.
+Proof. intros. unfold nz. destruct (Z.of_nat k <? 0)%Z eqn:E; [apply Z.ltb_lt in E; lia | lia]. Qed.
+
+Section Plan.
+  Variables (vs : shape) (ax : list Z) (r L R : nat).
+  Hypothesis Hlen : length ax = length vs.
+  Hypothesis HND : NoDup ax.
+  Hypothesis Hrange : forall a, In a ax -> (0 <= a + Z.of_nat L < Z.of_nat (L + R + r))%Z.
+  Let T := L + R + r.
+  Let axn := shifted L ax.
+  Let nd := length vs.
+  Let src := map Z.of_nat (seq 0 (length ax)).
+  Let dst := map (fun a => (a + Z.of_nat L)%Z) ax.
+  Let p := moveaxis_order T (seq 0 nd) axn.
+
+  Lemma axn_length : length axn = nd.
+  Proof. unfold axn, shifted. rewrite map_length. exact Hlen. Qed.
+
+  Lemma axn_lt : forall x, In x axn -> x < T.
+  Proof.
+    intros x Hx. unfold axn, shifted in Hx. apply in_map_iff in Hx. destruct Hx as [a [E Ha]].
+    specialize (Hrange a Ha). unfold T. lia.
+  Qed.
+
+  Lemma axn_NoDup : NoDup axn.
+  Proof.
+    unfold axn, shifted. apply NoDup_map_inj_in; [|exact HND].
+    intros x y Hx Hy E. pose proof (Hrange x Hx). pose proof (Hrange y Hy). lia.
+  Qed.
+
+  Lemma nd_le_T : nd <= T.
+  Proof.
+    rewrite <- axn_length. rewrite <- (seq_length T 0).
+    apply NoDup_incl_length; [apply axn_NoDup|]. intros x Hx. apply in_seq. pose proof (axn_lt x Hx). lia.
+  Qed.
+
+  Lemma padded_length : length (diag_padded_shape vs L R r) = T.
+  Proof.
+    unfold diag_padded_shape. rewrite app_length, ones_length. pose proof nd_le_T. unfold nd, T in *. lia.
+  Qed.
+
+  Lemma nz_src : map (nz T) src = seq 0 nd.
+  Proof.
+    unfold src. rewrite map_map. rewrite Hlen. fold nd.
+    rewrite (map_ext _ (fun k => k)) by (intros; apply nz_of_nat). apply map_id.
+  Qed.
+
+  Lemma nz_dst : map (nz T) dst = axn.
+  Proof.
+    unfold dst, axn, shifted. rewrite map_map. apply map_ext_in. intros a Ha.
+    specialize (Hrange a Ha). unfold nz. destruct (a + Z.of_nat L <? 0)%Z eqn:E; [apply Z.ltb_lt in E; lia | reflexivity].
+  Qed.
+
+  Lemma plan_legalZ : legalZ T src dst.
+  Proof.
+    unfold legalZ. repeat split.
+    - unfold src. rewrite Forall_forall. intros x Hx. apply in_map_iff in Hx. destruct Hx as [k [E Hk]].
+      apply in_seq in Hk. pose proof nd_le_T. unfold nd in *. unfold in_rangeZ. lia.
+    - unfold dst. rewrite Forall_forall. intros x Hx. apply in_map_iff in Hx. destruct Hx as [a [E Ha]].
+      specialize (Hrange a Ha). unfold in_rangeZ, T. lia.
+    - unfold src, dst. rewrite !map_length, seq_length. reflexivity.
+    - rewrite nz_src. apply seq_NoDup.
+    - rewrite nz_dst. apply axn_NoDup.
+  Qed.
+
+  Lemma plan_legal : legal T (seq 0 nd) axn.
+  Proof. pose proof (legalZ_legal _ _ _ plan_legalZ) as H. rewrite nz_src, nz_dst in H. exact H. Qed.
+
+  Lemma plan_perm : moveaxis_perm T src dst = Ok p.
+  Proof. rewrite moveaxis_perm_legal by exact plan_legalZ. rewrite nz_src, nz_dst. reflexivity. Qed.
+
+  Lemma p_spec : mspec T (seq 0 nd) axn p.
+  Proof. apply order_spec. exact plan_legal. Qed.
+
+  (* p[ax_k + left] = k *)
+  Lemma p_at_axis : forall k, k < nd -> nth (nth k axn 0) p 0 = k.
+  Proof.
+    intros k Hk. destruct p_spec as (_ & _ & _ & H & _). rewrite seq_length in H.
+    rewrite H by exact Hk. apply seq_nth. exact Hk.
+  Qed.
+
+  Lemma dspec_length : length (dspec vs axn T) = T.
+  Proof. unfold dspec. rewrite map_length, seq_length. reflexivity. Qed.
+
+  Lemma dspec_at_axis : forall k, k < nd -> nth (nth k axn 0) (dspec vs axn T) 0 = nth k vs 0.
+  Proof.
+    intros k Hk. unfold dspec.
+    assert (Hm : nth k axn 0 < T) by (apply axn_lt, nth_In; rewrite axn_length; exact Hk).
+    rewrite nth_map_seq0 by exact Hm.
+    rewrite index_of_nth by (try apply axn_NoDup; rewrite axn_length; exact Hk).
+    apply nth_indep. exact Hk.
+  Qed.
+
+  Lemma dspec_off_axis : forall m, m < T -> ~ In m axn -> nth m (dspec vs axn T) 0 = 1.
+  Proof.
+    intros m Hm Hn. unfold dspec. rewrite nth_map_seq0 by exact Hm.
+    rewrite index_of_notin by exact Hn. rewrite axn_length. apply nth_overflow. unfold nd. lia.
+  Qed.
+
+  Lemma plan_dshape : permute 0 (diag_padded_shape vs L R r) p = dspec vs axn T.
+  Proof.
+    destruct p_spec as (Hlp & NDp & Hbp & Hk & _).
+    apply (nth_ext _ _ 0 0); [rewrite permute_length, dspec_length; exact Hlp|].
+    intros m Hm. rewrite permute_length, Hlp in Hm.
+    rewrite nth_permute by (rewrite Hlp; exact Hm).
+    destruct (mem_nat m axn) eqn:E.
+    - apply mem_nat_In in E. destruct (In_nth _ _ 0 E) as [k [Hk1 Hk2]]. rewrite axn_length in Hk1.
+      rewrite <- Hk2. rewrite p_at_axis by exact Hk1. rewrite dspec_at_axis by exact Hk1.
+      unfold diag_padded_shape. apply app_nth1. exact Hk1.
+    - pose proof (spec_mem_equiv T _ _ p plan_legal p_spec m Hm) as Em. rewrite E in Em.
+      apply mem_nat_false in Em. apply mem_nat_false in E.
+      rewrite dspec_off_axis by assumption.
+      assert (Hpm : nth m p 0 < T) by (apply Hbp, nth_In; lia).
+      assert (Hge : nd <= nth m p 0).
+      { destruct (le_lt_dec nd (nth m p 0)) as [H|H]; [exact H|]. exfalso. apply Em. apply in_seq. lia. }
+      unfold diag_padded_shape. rewrite app_nth2 by exact Hge. apply nth_ones. unfold nd, T in *. lia.
+  Qed.
+End Plan.
+
+(* ========================================================================================== *)
+(* 4. broadcasting of shapes *)
+
+Definition compat (a b : nat) : Prop := a = b \/ a = 1 \/ b = 1.
+Definition bmax (a b : nat) : nat := if a =? 1 then b else a.
+Definition zipw (f : nat -> nat -> nat) (a b : list nat) : list nat :=
+  map (fun q => f (fst q) (snd q)) (combine a b).
+
+Lemma bc1_ok_iff : forall a b c, bc1 a b = Ok c <-> (compat a b /\ c = bmax a b).
+Proof.
+  intros a b c. unfold bc1, compat, bmax.
+  destruct (Nat.eqb_spec a b) as [E1|E1]; destruct (Nat.eqb_spec a 1) as [E2|E2];
+    destruct (Nat.eqb_spec b 1) as [E3|E3]; split;
+    try (intros H; inversion H; subst; split; [lia | lia]);
+    try (intros [H1 H2]; subst; f_equal; lia);
+    try (intros [H1 H2]; exfalso; lia); try discriminate.
+Qed.
+
+Lemma bc1_err : forall a b e, bc1 a b = Err e -> e = ValueError /\ ~ compat a b.
+Proof.
+  intros a b e. unfold bc1, compat.
+  destruct (a =? b) eqn:E1; [discriminate|]. destruct (a =? 1) eqn:E2; [discriminate|].
+  destruct (b =? 1) eqn:E3; [discriminate|]. intros H. inversion H.
+  apply Nat.eqb_neq in E1, E2, E3. split; [reflexivity | lia].
+Qed.
+
+Lemma mapM2_bc1_ok : forall a b c, length a = length b ->
+  (mapM2 bc1 a b = Ok c <-> (Forall2 compat a b /\ c = zipw bmax a b)).
+Proof.
+  induction a as [|x a IH]; intros [|y b] c Hl; simpl in Hl; try lia.
+  - simpl. split; [intros H; inversion H; split; [constructor | reflexivity] | intros [_ E]; subst; reflexivity].
+  - simpl. rewrite bind_ok. split.
+    + intros [z [Hz H]]. rewrite bind_ok in H. destruct H as [cs [Hcs H]]. inversion H; subst.
+      apply bc1_ok_iff in Hz. destruct Hz as [Hc Ez]. apply IH in Hcs; [|lia]. destruct Hcs as [HF Ec].
+      split; [constructor; assumption|]. unfold zipw in *. simpl. congruence.
+    + intros [HF Ec]. inversion HF as [|? ? ? ? Hc HF']; subst.
+      exists (bmax x y). split; [apply bc1_ok_iff; split; [exact Hc | reflexivity]|].
+      rewrite bind_ok. exists (zipw bmax a b). split; [apply IH; [lia | split; [exact HF' | reflexivity]] | reflexivity].
+Qed.
+
+Lemma mapM2_bc1_err : forall a b e, mapM2 bc1 a b = Err e -> e = ValueError /\ ~ Forall2 compat a b.
+Proof.
+  induction a as [|x a IH]; intros [|y b] e H; simpl in H; try discriminate.
+  destruct (bc1 x y) as [z|e'] eqn:Ez; simpl in H.
+  - destruct (mapM2 bc1 a b) as [cs|e''] eqn:Ecs; simpl in H; [discriminate|]. inversion H; subst.
+    destruct (IH b e Ecs) as [E1 E2]. split; [exact E1|]. intros HF. inversion HF; subst. contradiction.
+  - inversion H; subst. apply bc1_err in Ez. destruct Ez as [E1 E2]. split; [exact E1|].
+    intros HF. inversion HF; subst. contradiction.
+Qed.
+
+Lemma Forall2_nth_iff : forall (P : nat -> nat -> Prop) a b, length a = length b ->
+  (Forall2 P a b <-> forall m, m < length a -> P (nth m a 0) (nth m b 0)).
+Proof.
+  intros P. induction a as [|x a IH]; intros [|y b] Hl; simpl in Hl; try lia.
+  - split; [intros _ m Hm; simpl in Hm; lia | constructor].
+  - split.
+    + intros H m Hm. inversion H; subst. destruct m; simpl; [assumption|]. apply IH; [lia | assumption | simpl in Hm; lia].
+    + intros H. constructor; [apply (H 0); simpl; lia|]. apply IH; [lia|]. intros m Hm. apply (H (S m)). simpl. lia.
+Qed.
+
+Lemma zipw_length : forall f a b, length a = length b -> length (zipw f a b) = length a.
+Proof. intros. unfold zipw. rewrite map_length, combine_length. lia. Qed.
+
+Lemma zipw_nth : forall f a b m, length a = length b -> m < length a ->
+  nth m (zipw f a b) 0 = f (nth m a 0) (nth m b 0).
+Proof.
+  intros f. induction a as [|x a IH]; intros [|y b] m Hl Hm; simpl in *; try lia.
+  destruct m; [reflexivity|]. apply IH; lia.
+Qed.
+
+Lemma pad_left_full : forall n s, n <= length s -> pad_left n s = s.
+Proof. intros n s H. unfold pad_left. replace (n - length s) with 0 by lia. reflexivity. Qed.
+
+(* the reshaped input leaf, right-aligned against a shape of rank L + R + r *)
+Definition xpad (sh : shape) (L R : nat) : shape := ones L ++ sh ++ ones R.
+
+Lemma pad_left_xshape : forall sh L R, pad_left (L + R + length sh) (sh ++ ones R) = xpad sh L R.
+Proof.
+  intros. unfold pad_left, xpad. rewrite app_length, ones_length.
+  replace (L + R + length sh - (length sh + R)) with L by lia. reflexivity.
+Qed.
+
+Lemma xpad_length : forall sh L R, length (xpad sh L R) = L + R + length sh.
+Proof. intros. unfold xpad. rewrite !app_length, !ones_length. lia. Qed.
+
+(* size of the leaf axis at the (normalised, possibly out-of-range) position a: 1 outside the leaf *)
+Definition axis_size (sh : shape) (a : Z) : nat :=
+  if ((0 <=? a) && (a <? Z.of_nat (length sh)))%Z then nth (Z.to_nat a) sh 0 else 1.
+
+Lemma xpad_nth : forall sh L R m, m < L + R + length sh ->
+  nth m (xpad sh L R) 0 = axis_size sh (Z.of_nat m - Z.of_nat L).
+Proof.
+  intros sh L R m Hm. unfold xpad, axis_size.
+  destruct (le_lt_dec L m) as [H1|H1].
+  - rewrite app_nth2 by (rewrite ones_length; exact H1). rewrite ones_length.
+    destruct (le_lt_dec (length sh) (m - L)) as [H2|H2].
+    + rewrite app_nth2 by exact H2.
+      replace ((0 <=? Z.of_nat m - Z.of_nat L)%Z && (Z.of_nat m - Z.of_nat L <? Z.of_nat (length sh))%Z) with false
+        by (symmetry; apply andb_false_iff; right; apply Z.ltb_ge; lia).
+      apply nth_ones. lia.
+    + rewrite app_nth1 by exact H2.
+      replace ((0 <=? Z.of_nat m - Z.of_nat L)%Z && (Z.of_nat m - Z.of_nat L <? Z.of_nat (length sh))%Z) with true
+        by (symmetry; apply andb_true_iff; split; [apply Z.leb_le | apply Z.ltb_lt]; lia).
+      f_equal. lia.
+  - rewrite app_nth1 by (rewrite ones_length; exact H1).
+    replace ((0 <=? Z.of_nat m - Z.of_nat L)%Z && (Z.of_nat m - Z.of_nat L <? Z.of_nat (length sh))%Z) with false
+      by (symmetry; apply andb_false_iff; left; apply Z.leb_gt; lia).
+    apply nth_ones. exact H1.
+Qed.
+
+(* ========================================================================================== *)
+(* 5. the decisions taken for one leaf, in closed form *)
+
+Definition finish (cls : dclass) (sh : shape) (pl : plan) : res plan :=
+  match cls with
+  | DBroadcast => Ok pl
+  | DStrict => if shape_eqb (p_out pl) sh then Ok pl else Err ValueError
+  end.
+
+Lemma leaf_plan_closed : forall cls vs axes sh ax L R,
+  length axes = length vs -> ax = map (norm_axis (length sh)) axes -> NoDup ax ->
+  lr_dims ax (length sh) = Ok (L, R) ->
+  let T := L + R + length sh in
+  let axn := shifted L ax in
+  leaf_plan cls vs axes sh =
+  bind (mapM2 bc1 (dspec vs axn T) (xpad sh L R)) (fun out =>
+  finish cls sh (mkPlan ax L R (moveaxis_order T (seq 0 (length vs)) axn) (dspec vs axn T) (sh ++ ones R) out)).
+Proof.
+  intros cls vs axes sh ax L R Hlen Eax ND Hlr T axn.
+  assert (Hlen' : length ax = length vs) by (rewrite Eax, map_length; exact Hlen).
+  destruct (lr_dims_spec _ _ _ _ Hlr) as [_ (Hrange & _)].
+  unfold leaf_plan.
+  assert (En : normalize_axes axes (length sh) = Ok ax) by (apply normalize_axes_ok; split; assumption).
+  rewrite En. cbn [bind]. rewrite Hlr. cbn [bind fst snd].
+  rewrite (padded_length vs ax (length sh) L R Hlen' ND Hrange).
+  rewrite (plan_perm vs ax (length sh) L R Hlen' ND Hrange). cbn [bind].
+  rewrite (plan_dshape vs ax (length sh) L R Hlen' ND Hrange).
+  unfold broadcast_shapes.
+  rewrite (dspec_length vs ax (length sh) L R), app_length, ones_length.
+  replace (Nat.max (L + R + length sh) (length sh + R)) with (L + R + length sh) by lia.
+  rewrite pad_left_full by (rewrite (dspec_length vs ax (length sh) L R); lia).
+  rewrite pad_left_xshape. fold T. fold axn.
+  destruct (mapM2 bc1 (dspec vs axn T) (xpad sh L R)) as [out|e]; [|reflexivity].
+  cbn [bind]. destruct cls; reflexivity.
+Qed.
+
+Lemma finish_ok : forall cls sh pl pl', finish cls sh pl = Ok pl' ->
+  pl' = pl /\ (cls = DStrict -> p_out pl = sh).
+Proof.
+  intros [|] sh pl pl' H; simpl in H.
+  - inversion H. split; [reflexivity | discriminate].
+  - destruct (shape_eqb (p_out pl) sh) eqn:E; [|discriminate].
+    assert (E' : pl' = pl) by congruence. subst pl'.
+    split; [reflexivity|]. intros _. apply shape_eqb_eq. exact E.
+Qed.
+
+(* everything an accepted leaf went through *)
+Lemma leaf_plan_ok_inv : forall cls vs axes sh pl,
+  length axes = length vs -> leaf_plan cls vs axes sh = Ok pl ->
+  let ax := map (norm_axis (length sh)) axes in
+  exists L R out,
+    let T := L + R + length sh in
+    let axn := shifted L ax in
+    NoDup ax /\ lr_dims ax (length sh) = Ok (L, R) /\
+    mapM2 bc1 (dspec vs axn T) (xpad sh L R) = Ok out /\
+    pl = mkPlan ax L R (moveaxis_order T (seq 0 (length vs)) axn) (dspec vs axn T) (sh ++ ones R) out /\
+    (cls = DStrict -> out = sh).
+Proof.
+  intros cls vs axes sh pl Hlen H ax.
+  destruct (normalize_axes axes (length sh)) as [ax'|e] eqn:En;
+    [|unfold leaf_plan in H; rewrite En in H; discriminate].
+  apply normalize_axes_ok in En. destruct En as [Eax ND]. fold ax in Eax. subst ax'.
+  destruct (lr_dims ax (length sh)) as [[L R]|e] eqn:Hlr.
+  - rewrite (leaf_plan_closed cls vs axes sh ax L R Hlen eq_refl ND Hlr) in H.
+    apply bind_ok in H. destruct H as [out [Hout Hf]]. apply finish_ok in Hf. destruct Hf as [E1 E2].
+    exists L, R, out. repeat split; try assumption.
+  - unfold leaf_plan in H. replace (normalize_axes axes (length sh)) with (Ok ax) in H
+      by (symmetry; apply normalize_axes_ok; split; [reflexivity | exact ND]).
+    cbn [bind] in H. rewrite Hlr in H. discriminate.
+Qed.
+
+(* ========================================================================================== *)
+(* 6. element level *)
+
+Lemma in_range_nth_iff : forall s I, length I = length s ->
+  (in_range s I <-> forall m, m < length s -> nth m I 0 < nth m s 0).
+Proof. intros s I Hl. unfold in_range. rewrite (Forall2_nth_iff lt I s Hl). rewrite Hl. reflexivity. Qed.
+
+Lemma prod_app_ones : forall s e, prod (s ++ ones e) = prod s.
+Proof.
+  intros s e. rewrite prod_app. replace (prod (ones e)) with 1; [lia|].
+  induction e as [|e IH]; [reflexivity|]. simpl. unfold ones in IH. rewrite <- IH. reflexivity.
+Qed.
+
+Lemma ravel_ones : forall e J, in_range (ones e) J -> ravel (ones e) J = 0.
+Proof.
+  induction e as [|e IH]; intros J H; [destruct J; reflexivity|].
+  inversion H as [|j n J' s' Hj HF]; subst. simpl.
+  change (repeat 1 e) with (ones e). rewrite IH by exact HF. lia.
+Qed.
+
+Lemma ravel_app_ones : forall s e J, in_range (s ++ ones e) J ->
+  ravel (s ++ ones e) J = ravel s (firstn (length s) J).
+Proof.
+  induction s as [|n s IH]; intros e J H.
+  - simpl. rewrite ravel_ones by exact H. destruct J; reflexivity.
+  - simpl in H. inversion H as [|j n' J' s' Hj HF]; subst. simpl.
+    rewrite prod_app_ones. rewrite IH by exact HF. reflexivity.
+Qed.
+
+Lemma nth_skipn' : forall (l : list nat) n j, nth j (skipn n l) 0 = nth (n + j) l 0.
+Proof.
+  intros l n. revert l. induction n as [|n IH]; intros l j; [reflexivity|].
+  destruct l as [|a l]; [destruct j; reflexivity|]. simpl. apply IH.
+Qed.
+
+Lemma clip_lt : forall x z i, (x = 1 \/ x = z) -> i < z -> clip x i < x.
+Proof.
+  intros x z i H Hi. unfold clip. destruct (Nat.eqb_spec x 1) as [E|E]; [lia|].
+  destruct H; [contradiction | lia].
+Qed.
+
+Lemma bmax_left : forall a b, compat a b -> a = 1 \/ a = bmax a b.
+Proof. intros a b H. unfold bmax, compat in *. destruct (Nat.eqb_spec a 1); lia. Qed.
+Lemma bmax_right : forall a b, compat a b -> b = 1 \/ b = bmax a b.
+Proof. intros a b H. unfold bmax, compat in *. destruct (Nat.eqb_spec a 1); lia. Qed.
+
+Section Elementwise.
+  Variable K : Type.
+  Variable k0 : K.
+  Variable kmul : K -> K -> K.
+  Notation getK := (get K k0).
+
+  Lemma get_map_indices : forall out (f : list nat -> K) I, in_range out I ->
+    nth (ravel out I) (map f (indices out)) k0 = f I.
+  Proof.
+    intros out f I H. destruct (nth_ravel_indices _ _ H) as [Hlt Hn].
+    rewrite (nth_indep _ k0 (f [])) by (rewrite map_length, indices_length; exact Hlt).
+    rewrite map_nth. rewrite Hn. reflexivity.
+  Qed.
+
+  Lemma get_mul_arr : forall out (a b : arr K) I, in_range out I ->
+    getK (mul_arr K k0 kmul out a b) I =
+    kmul (getK a (bidx (ashape a) I)) (getK b (bidx (ashape b) I)).
+  Proof. intros. unfold get at 1. unfold mul_arr. cbn [ashape adata]. apply get_map_indices. assumption. Qed.
+
+  Lemma get_broadcast_to : forall out (a : arr K) I, in_range out I ->
+    getK (broadcast_to K k0 out a) I = getK a (bidx (ashape a) I).
+  Proof.
+    intros. unfold get at 1. unfold broadcast_to. cbn [ashape adata].
+    apply (get_map_indices out (fun I0 => getK a (bidx (ashape a) I0))). assumption.
+  Qed.
+
+  Lemma wf_mul_arr : forall out (a b : arr K), wf_arr (mul_arr K k0 kmul out a b).
+  Proof. intros. unfold wf_arr, mul_arr. simpl. rewrite map_length. apply indices_length. Qed.
+
+  (* reshape to shape + (1,)*e keeps the data: reading at J reads the original at J[:rank] *)
+  Lemma get_padded : forall s e data J, in_range (s ++ ones e) J ->
+    getK (mkArr (s ++ ones e) data) J = getK (mkArr s data) (firstn (length s) J).
+  Proof. intros. unfold get. cbn [ashape adata]. rewrite ravel_app_ones by assumption. reflexivity. Qed.
+
+  (* The element formula for one leaf.  vs = values shape, sh = leaf shape (rank r), ax = normalised
+     axes, L / R = left / right broadcast dimensions.  Output axis L + j is the leaf's axis j, output
+     axis L + ax_k carries the k-th axis of the values; unit axes are read at index 0. *)
+  Definition d_index (vs : shape) (axn : list nat) (I : list nat) : list nat :=
+    map (fun k => clip (nth k vs 0) (nth (nth k axn 0) I 0)) (seq 0 (length vs)).
+  Definition x_index (sh : shape) (L : nat) (I : list nat) : list nat :=
+    map (fun j => clip (nth j sh 0) (nth (L + j) I 0)) (seq 0 (length sh)).
+
+  Theorem mv_leaf_elementwise : forall cls (d x : arr K) axes y,
+    length axes = length (ashape d) ->
+    mv_leaf K k0 kmul cls d axes x = Ok y ->
+    let vs := ashape d in
+    let sh := ashape x in
+    let ax := map (norm_axis (length sh)) axes in
+    exists L R,
+      let T := L + R + length sh in
+      let axn := shifted L ax in
+      NoDup ax /\ lr_dims ax (length sh) = Ok (L, R) /\
+      Forall2 compat (dspec vs axn T) (xpad sh L R) /\
+      ashape y = zipw bmax (dspec vs axn T) (xpad sh L R) /\
+      (cls = DStrict -> ashape y = sh) /\
+      wf_arr y /\
+      forall I, in_range (ashape y) I ->
+        getK y I = kmul (getK d (d_index vs axn I)) (getK x (x_index sh L I)).
+  Proof.
+    intros cls d x axes y Hlen H vs sh ax.
+    unfold mv_leaf in H. apply bind_ok in H. destruct H as [pl [Hpl Hy]].
+    destruct (leaf_plan_ok_inv cls vs axes sh pl Hlen Hpl) as (L & R & out & ND & Hlr & Hout & Epl & Hstrict).
+    fold ax in ND, Hlr, Hout, Epl. exists L, R. intros T axn. fold T in Hout, Epl. fold axn in Hout, Epl.
+    assert (Hlen' : length ax = length vs) by (unfold ax; rewrite map_length; exact Hlen).
+    destruct (lr_dims_spec _ _ _ _ Hlr) as [_ (Hrange & _)].
+    set (r := length sh) in *. set (nd := length vs) in *.
+    set (p := moveaxis_order T (seq 0 nd) axn) in *.
+    pose proof (dspec_length vs ax r L R) as Hdl. fold T axn in Hdl.
+    pose proof (xpad_length sh L R) as Hxl. fold r T in Hxl.
+    apply mapM2_bc1_ok in Hout; [|lia]. destruct Hout as [HF Eout].
+    inversion Hy as [Ey]. clear Hy. subst pl. cbn [p_out p_perm p_L p_R p_xshape] in *.
+    split; [exact ND|]. split; [exact Hlr|]. split; [exact HF|]. split; [exact Eout|].
+    split; [exact Hstrict|]. split; [apply wf_mul_arr|].
+    intros I HI. unfold mul_arr in HI. cbn [ashape] in HI.
+    assert (Hol : length out = T) by (rewrite Eout, zipw_length by lia; exact Hdl).
+    assert (HlI : length I = T) by (rewrite (in_range_length _ _ HI); exact Hol).
+    assert (HIlt : forall m, m < T -> nth m I 0 < nth m out 0).
+    { intros m Hm. apply (proj1 (in_range_nth_iff out I (eq_trans HlI (eq_sym Hol))) HI). lia. }
+    assert (Hcm : forall m, m < T -> compat (nth m (dspec vs axn T) 0) (nth m (xpad sh L R) 0)).
+    { intros m Hm. apply (proj1 (Forall2_nth_iff compat _ _ (eq_trans Hdl (eq_sym Hxl))) HF). lia. }
+    assert (Hom : forall m, m < T -> nth m out 0 = bmax (nth m (dspec vs axn T) 0) (nth m (xpad sh L R) 0)).
+    { intros m Hm. rewrite Eout. apply zipw_nth; lia. }
+    rewrite get_mul_arr by exact HI. f_equal.
+    - (* the values *)
+      unfold reshaped_diagonal. cbn [p_perm p_L p_R]. change (length (ashape x)) with r. change (ashape d) with vs.
+      set (sh1 := diag_padded_shape vs L R r).
+      set (d0 := mkArr sh1 (adata d)).
+      assert (Hs1 : length sh1 = T) by (apply (padded_length vs ax r L R Hlen' ND Hrange)).
+      pose proof (plan_dshape vs ax r L R Hlen' ND Hrange) as Hds. fold T axn nd p sh1 in Hds.
+      pose proof (p_spec vs ax r L R Hlen' ND Hrange) as Hps. fold T axn nd p in Hps.
+      destruct Hps as (Hlp & NDp & Hbp & Hkp & _).
+      pose proof (plan_legal vs ax r L R Hlen' ND Hrange) as HLg. fold T axn nd in HLg.
+      fold sh1. fold d0. rewrite shape_transpose. change (ashape d0) with sh1. rewrite Hds.
+      set (B := bidx (dspec vs axn T) I).
+      assert (EB : B = zipw clip (dspec vs axn T) I).
+      { unfold B, bidx. rewrite HlI, Hdl, Nat.sub_diag. reflexivity. }
+      assert (HBl : length B = T) by (rewrite EB, zipw_length by lia; exact Hdl).
+      assert (HBn : forall m, m < T -> nth m B 0 = clip (nth m (dspec vs axn T) 0) (nth m I 0)).
+      { intros m Hm. rewrite EB. apply zipw_nth; lia. }
+      assert (HBr : in_range (dspec vs axn T) B).
+      { apply in_range_nth_iff; [lia|]. rewrite Hdl. intros m Hm. rewrite HBn by exact Hm.
+        apply (clip_lt _ (nth m out 0)); [|apply HIlt; exact Hm].
+        rewrite Hom by exact Hm. apply bmax_left. apply Hcm. exact Hm. }
+      rewrite get_transpose by (change (ashape d0) with sh1; rewrite Hds; exact HBr).
+      set (J := permute 0 B (invperm p)).
+      assert (Hinv : forall m, m < T -> nth m (invperm p) 0 < length p /\ nth (nth m (invperm p) 0) p 0 = m).
+      { apply invperm_right; [exact Hlp|]. intros m Hm. apply order_In; assumption. }
+      assert (HJr : in_range sh1 J).
+      { assert (E : permute 0 (permute 0 sh1 p) (invperm p) = sh1).
+        { apply (permute_compose_id _ 0 T); [rewrite invperm_length; exact Hlp | exact Hs1 | exact Hinv]. }
+        rewrite <- E. unfold J. rewrite Hds. apply in_range_permute; [exact HBr|].
+        intros k Hk. rewrite Hdl.
+        apply In_nth with (d := 0) in Hk. destruct Hk as [m [Hm Ek]]. rewrite invperm_length in Hm.
+        rewrite <- Ek. rewrite <- Hlp. apply Hinv. lia. }
+      unfold d0, sh1, diag_padded_shape. unfold sh1, diag_padded_shape in HJr.
+      rewrite get_padded by exact HJr.
+      assert (Ed : mkArr vs (adata d) = d) by (destruct d; reflexivity). rewrite Ed. f_equal.
+      assert (HJl : length J = T) by (unfold J; rewrite permute_length, invperm_length; exact Hlp).
+      pose proof (nd_le_T vs ax r L R Hlen' ND Hrange) as Hnd. fold T nd in Hnd.
+      rewrite firstn_map_nth by (fold nd; lia). unfold d_index. fold nd.
+      apply map_ext_in. intros k Hk. apply in_seq in Hk.
+      assert (Hak : nth k axn 0 < T).
+      { apply (axn_lt vs ax r L R Hlen' Hrange). apply nth_In. rewrite (axn_length vs ax L Hlen'). lia. }
+      unfold J. rewrite nth_permute by (rewrite invperm_length, Hlp; lia).
+      rewrite nth_invperm by (rewrite Hlp; lia).
+      assert (Eidx : index_of k p = nth k axn 0).
+      { rewrite <- (p_at_axis vs ax r L R Hlen' ND Hrange k) at 1 by lia. fold T axn nd p.
+        apply index_of_nth; [exact NDp | rewrite Hlp; exact Hak]. }
+      rewrite Eidx. rewrite HBn by exact Hak.
+      rewrite (dspec_at_axis vs ax r L R Hlen' ND Hrange) by lia. reflexivity.
+    - (* the input leaf *)
+      cbn [ashape].
+      set (xsh := sh ++ ones R).
+      assert (Hxsl : length xsh = r + R) by (unfold xsh; rewrite app_length, ones_length; reflexivity).
+      set (Jx := bidx xsh I).
+      assert (EJ : Jx = zipw clip xsh (skipn L I)).
+      { unfold Jx, bidx. rewrite HlI, Hxsl. replace (T - (r + R)) with L by (unfold T; lia). reflexivity. }
+      assert (Hsl : length (skipn L I) = r + R) by (rewrite skipn_length, HlI; unfold T; lia).
+      assert (HJn : forall j, j < r + R -> nth j Jx 0 = clip (nth j xsh 0) (nth (L + j) I 0)).
+      { intros j Hj. rewrite EJ. rewrite zipw_nth by lia. rewrite nth_skipn'. reflexivity. }
+      assert (Hxp : forall j, j < r + R -> nth (L + j) (xpad sh L R) 0 = nth j xsh 0).
+      { intros j Hj. unfold xpad. rewrite app_nth2 by (rewrite ones_length; lia). rewrite ones_length.
+        f_equal. lia. }
+      assert (HJr : in_range xsh Jx).
+      { apply in_range_nth_iff; [rewrite EJ, zipw_length by lia; reflexivity|]. rewrite Hxsl.
+        intros j Hj. rewrite HJn by exact Hj.
+        assert (Hm : L + j < T) by (unfold T; lia).
+        apply (clip_lt _ (nth (L + j) out 0)); [|apply HIlt; exact Hm].
+        rewrite Hom by exact Hm. rewrite <- Hxp by exact Hj. apply bmax_right. apply Hcm. exact Hm. }
+      unfold xsh in HJr |- *. rewrite get_padded by exact HJr.
+      assert (Ex : mkArr sh (adata x) = x) by (destruct x; reflexivity). rewrite Ex. f_equal.
+      rewrite firstn_map_nth by (fold xsh; fold Jx; rewrite EJ, zipw_length by lia; fold r; lia).
+      unfold x_index. fold r. apply map_ext_in. intros j Hj. apply in_seq in Hj.
+      fold xsh. fold Jx. rewrite HJn by lia. f_equal. unfold xsh. apply app_nth1. fold r. lia.
+  Qed.
+End Elementwise.
+
+(* ========================================================================================== *)
+(* 7. exact characterisation of what the constructors accept *)
+
+(* a legal specification for one leaf: the normalised axes are distinct and every value axis is
+   compatible with the leaf axis it lands on (an axis outside the leaf lands on a new unit axis);
+   for the strict class it must land inside the leaf and must not enlarge it *)
+Definition leaf_ok (cls : dclass) (vs : shape) (axes : list Z) (sh : shape) : Prop :=
+  let ax := map (norm_axis (length sh)) axes in
+  NoDup ax /\
+  forall k, k < length vs ->
+    let a := nth k ax 0%Z in
+    match cls with
+    | DBroadcast => compat (nth k vs 0) (axis_size sh a)
+    | DStrict => (0 <= a < Z.of_nat (length sh))%Z /\ (nth k vs 0 = axis_size sh a \/ nth k vs 0 = 1)
+    end.
+
+Lemma nth_shifted : forall L ax k, k < length ax ->
+  nth k (shifted L ax) 0 = Z.to_nat (nth k ax 0%Z + Z.of_nat L)%Z.
+Proof.
+  intros L ax k Hk. unfold shifted.
+  rewrite (nth_indep _ 0 (Z.to_nat (0 + Z.of_nat L)%Z)) by (rewrite map_length; exact Hk).
+  apply (map_nth (fun a => Z.to_nat (a + Z.of_nat L)%Z)).
+Qed.
+
+Lemma xpad_00 : forall sh, xpad sh 0 0 = sh.
+Proof. intros. unfold xpad. simpl. apply app_nil_r. Qed.
+
+Lemma leaf_plan_err_kind : forall cls vs axes sh e, length axes = length vs ->
+  leaf_plan cls vs axes sh = Err e -> e = ValueError.
+Proof.
+  intros cls vs axes sh e Hlen H.
+  destruct (normalize_axes axes (length sh)) as [ax|e'] eqn:En.
+  - pose proof En as En'. apply normalize_axes_ok in En'. destruct En' as [Eax ND].
+    destruct (lr_dims ax (length sh)) as [[L R]|e''] eqn:Hlr.
+    + rewrite (leaf_plan_closed cls vs axes sh ax L R Hlen Eax ND Hlr) in H.
+      destruct (mapM2 bc1 _ _) as [out|e3] eqn:Eo; cbn [bind] in H.
+      * destruct cls; simpl in H; [discriminate|]. destruct (shape_eqb _ _); [discriminate|]. congruence.
+      * inversion H; subst. apply mapM2_bc1_err in Eo. tauto.
+    + unfold leaf_plan in H. rewrite En in H. cbn [bind] in H. rewrite Hlr in H. cbn [bind] in H.
+      apply lr_dims_err in Hlr. destruct Hlr. congruence.
+  - unfold leaf_plan in H. rewrite En in H. cbn [bind] in H. apply normalize_axes_err in En. destruct En. congruence.
+Qed.
+
+Lemma leaf_plan_iff : forall cls vs axes sh, length axes = length vs -> vs <> [] ->
+  ((exists pl, leaf_plan cls vs axes sh = Ok pl) <-> leaf_ok cls vs axes sh).
+Proof.
+  intros cls vs axes sh Hlen Hne. set (r := length sh). set (ax := map (norm_axis r) axes).
+  assert (Hlen' : length ax = length vs) by (unfold ax; rewrite map_length; exact Hlen).
+  split.
+  - intros [pl Hpl].
+    destruct (leaf_plan_ok_inv cls vs axes sh pl Hlen Hpl) as (L & R & out & ND & Hlr & Hout & _ & Hstrict).
+    fold r ax in ND, Hlr, Hout. destruct (lr_dims_spec _ _ _ _ Hlr) as [_ (Hrange & _)].
+    pose proof (dspec_length vs ax r L R) as Hdl. pose proof (xpad_length sh L R) as Hxl. fold r in Hxl.
+    apply mapM2_bc1_ok in Hout; [|lia]. destruct Hout as [HF Eout].
+    unfold leaf_ok. cbv zeta. fold r ax. split; [exact ND|]. intros k Hk. set (a := nth k ax 0%Z).
+    assert (Hin : In a ax) by (apply nth_In; lia).
+    pose proof (Hrange a Hin) as Ha.
+    set (m := nth k (shifted L ax) 0).
+    assert (Em : m = Z.to_nat (a + Z.of_nat L)%Z) by (apply nth_shifted; lia).
+    assert (Hm : m < L + R + r) by lia.
+    pose proof (proj1 (Forall2_nth_iff compat _ _ (eq_trans Hdl (eq_sym Hxl))) HF m) as Hc.
+    rewrite Hdl in Hc. specialize (Hc Hm). fold m in Hc.
+    unfold m in Hc at 1. rewrite (dspec_at_axis vs ax r L R Hlen' ND Hrange k Hk) in Hc.
+    rewrite xpad_nth in Hc by exact Hm. replace (Z.of_nat m - Z.of_nat L)%Z with a in Hc by lia.
+    destruct cls; [exact Hc|].
+    specialize (Hstrict eq_refl).
+    assert (Hol : length out = L + R + r) by (rewrite Eout, zipw_length by lia; exact Hdl).
+    assert (HLR : L = 0 /\ R = 0) by (rewrite Hstrict in Hol; fold r in Hol; lia). destruct HLR; subst L R.
+    split; [lia|].
+    assert (Eo : nth m out 0 = bmax (nth k vs 0) (axis_size sh a)).
+    { rewrite Eout. rewrite zipw_nth by lia. unfold m at 1.
+      rewrite (dspec_at_axis vs ax r 0 0 Hlen' ND Hrange k Hk). rewrite xpad_nth by exact Hm.
+      f_equal. f_equal. lia. }
+    rewrite Hstrict in Eo.
+    assert (Es : axis_size sh a = nth m sh 0).
+    { unfold axis_size. fold r.
+      replace ((0 <=? a)%Z && (a <? Z.of_nat r)%Z) with true
+        by (symmetry; apply andb_true_iff; split; [apply Z.leb_le | apply Z.ltb_lt]; lia).
+      f_equal. lia. }
+    rewrite <- Es in Eo. unfold bmax in Eo. destruct (Nat.eqb_spec (nth k vs 0) 1); [right; assumption | left; congruence].
+  - intros [ND Hk]. fold r ax in ND, Hk.
+    assert (Hax : ax <> []) by (intros E; rewrite E in Hlen'; destruct vs; [congruence | discriminate]).
+    destruct (lr_dims_nonempty ax r Hax) as (L & R & Hlr).
+    destruct (lr_dims_spec _ _ _ _ Hlr) as [_ (Hrange & HLmin & HRmin)].
+    pose proof (dspec_length vs ax r L R) as Hdl. pose proof (xpad_length sh L R) as Hxl. fold r in Hxl.
+    rewrite (leaf_plan_closed cls vs axes sh ax L R Hlen eq_refl ND Hlr). fold r.
+    set (T := L + R + r) in *. set (axn := shifted L ax) in *.
+    (* position-wise facts *)
+    assert (Hpos : forall m, m < T ->
+              (exists k, k < length vs /\ m = nth k axn 0 /\ nth m (dspec vs axn T) 0 = nth k vs 0 /\
+                         nth m (xpad sh L R) 0 = axis_size sh (nth k ax 0%Z)) \/
+              nth m (dspec vs axn T) 0 = 1).
+    { intros m Hm. destruct (mem_nat m axn) eqn:E.
+      - left. apply mem_nat_In in E. destruct (In_nth _ _ 0 E) as [k [Hk1 Hk2]].
+        pose proof (axn_length vs ax L Hlen') as Hal. fold axn in Hal. rewrite Hal in Hk1. exists k. split; [exact Hk1|]. split; [auto|].
+        split; [rewrite <- Hk2; apply (dspec_at_axis vs ax r L R Hlen' ND Hrange k Hk1)|].
+        rewrite xpad_nth by exact Hm. f_equal. rewrite <- Hk2. unfold axn. rewrite nth_shifted by lia.
+        assert (Hin : In (nth k ax 0%Z) ax) by (apply nth_In; lia). pose proof (Hrange _ Hin). lia.
+      - right. apply mem_nat_false in E. apply (dspec_off_axis vs ax r L R Hlen'); assumption. }
+    assert (HF : Forall2 compat (dspec vs axn T) (xpad sh L R)).
+    { apply (Forall2_nth_iff compat); [lia|]. rewrite Hdl. intros m Hm.
+      destruct (Hpos m Hm) as [(k & Hk1 & _ & E1 & E2)|E1].
+      - rewrite E1, E2. specialize (Hk k Hk1). cbv zeta in Hk. destruct cls; [exact Hk|].
+        destruct Hk as [_ [H|H]]; unfold compat; [left; exact H | right; left; exact H].
+      - rewrite E1. right. left. reflexivity. }
+    assert (Hout : mapM2 bc1 (dspec vs axn T) (xpad sh L R) = Ok (zipw bmax (dspec vs axn T) (xpad sh L R)))
+      by (apply mapM2_bc1_ok; [lia | split; [exact HF | reflexivity]]).
+    rewrite Hout. cbn [bind]. destruct cls; [eexists; reflexivity|].
+    (* strict: the broadcast shape is the leaf shape *)
+    assert (HL0 : L = 0).
+    { destruct HLmin as [H|H]; [exact H|]. destruct (In_nth _ _ 0%Z H) as [k [Hk1 Hk2]].
+      rewrite Hlen' in Hk1. specialize (Hk k Hk1). cbv zeta in Hk. rewrite Hk2 in Hk. lia. }
+    assert (HR0 : R = 0).
+    { destruct HRmin as [H|H]; [exact H|]. destruct (In_nth _ _ 0%Z H) as [k [Hk1 Hk2]].
+      rewrite Hlen' in Hk1. specialize (Hk k Hk1). cbv zeta in Hk. rewrite Hk2 in Hk. lia. }
+    assert (Eo : zipw bmax (dspec vs axn T) (xpad sh L R) = sh).
+    { apply (nth_ext _ _ 0 0); [rewrite zipw_length by lia; rewrite Hdl; unfold T, r; lia|].
+      intros m Hm. rewrite zipw_length, Hdl in Hm by lia. rewrite zipw_nth by lia.
+      assert (Ex : nth m (xpad sh L R) 0 = nth m sh 0) by (rewrite HL0, HR0, xpad_00; reflexivity).
+      destruct (Hpos m Hm) as [(k & Hk1 & _ & E1 & E2)|E1].
+      - rewrite E1. rewrite Ex in E2 |- *. specialize (Hk k Hk1). cbv zeta in Hk.
+        destruct Hk as [_ [H|H]]; unfold bmax.
+        + rewrite H, <- E2. destruct (nth m sh 0 =? 1); reflexivity.
+        + rewrite H. reflexivity.
+      - rewrite E1, Ex. reflexivity. }
+    unfold finish. cbn [p_out]. rewrite Eo.
+    replace (shape_eqb sh sh) with true by (symmetry; apply shape_eqb_eq; reflexivity).
+    eexists; reflexivity.
+Qed.
+
+Lemma mapM_err : forall (A B : Type) (f : A -> res B) l e, mapM f l = Err e -> exists a, In a l /\ f a = Err e.
+Proof.
+  intros A B f. induction l as [|a l IH]; intros e H; simpl in H; [discriminate|].
+  destruct (f a) as [b|e'] eqn:Ea; simpl in H.
+  - destruct (mapM f l) as [bs|e''] eqn:El; simpl in H; [discriminate|]. inversion H; subst.
+    destruct (IH e eq_refl) as [a' [Hin Ha']]. exists a'. split; [right; exact Hin | exact Ha'].
+  - inversion H; subst. exists a. split; [left; reflexivity | exact Ea].
+Qed.
+
+Lemma leaf_out_ok_iff : forall cls vs axes sh,
+  (exists o, leaf_out cls vs axes sh = Ok o) <-> (exists pl, leaf_plan cls vs axes sh = Ok pl).
+Proof.
+  intros. unfold leaf_out. split.
+  - intros [o H]. apply bind_ok in H. destruct H as [pl [H _]]. exists pl. exact H.
+  - intros [pl H]. rewrite H. eexists; reflexivity.
+Qed.
+
+Definition legal_spec (cls : dclass) (vs : shape) (axes : list Z) (ins : list shape) : Prop :=
+  vs <> [] /\ Forall (leaf_ok cls vs axes) ins.
+
+(* the constructor accepts exactly the legal specifications ... *)
+Theorem ctor_iff : forall cls vs a ins,
+  let axes := axis_tuple (length vs) a in
+  length axes = length vs ->
+  (Diag_ctor cls (VLeaf vs) a ins = Ok (mkDiag cls vs axes ins) <-> legal_spec cls vs axes ins).
+Proof.
+  intros cls vs a ins axes Hlen. unfold Diag_ctor, legal_spec. fold axes.
+  destruct (Nat.eqb_spec (length vs) 0) as [E|E].
+  - split; [discriminate|]. intros [H _]. destruct vs; [congruence | discriminate].
+  - assert (Hne : vs <> []) by (intros ->; apply E; reflexivity).
+    unfold d_out_structure. cbn [d_cls d_vshape d_axes d_in]. split.
+    + intros H. apply bind_ok in H. destruct H as [outs [Ho _]]. split; [exact Hne|].
+      apply mapM_Forall2 in Ho. clear -Ho Hlen Hne. induction Ho as [|sh o ins outs H _ IH]; constructor; [|exact IH].
+      apply (leaf_plan_iff cls vs axes sh Hlen Hne). apply leaf_out_ok_iff. exists o. exact H.
+    + intros [_ HF].
+      assert (G : exists outs, mapM (leaf_out cls vs axes) ins = Ok outs).
+      { apply mapM_ok_exists. rewrite Forall_forall in *. intros sh Hsh. apply leaf_out_ok_iff.
+        apply (leaf_plan_iff cls vs axes sh Hlen Hne). apply HF. exact Hsh. }
+      destruct G as [outs G]. rewrite G. reflexivity.
+Qed.
+
+(* ... returns nothing else when it accepts ... *)
+Lemma ctor_ok_fields : forall cls v a ins op, Diag_ctor cls v a ins = Ok op ->
+  exists vs, v = VLeaf vs /\ vs <> [] /\ op = mkDiag cls vs (axis_tuple (length vs) a) ins /\
+             exists outs, d_out_structure op = Ok outs.
+Proof.
+  intros cls [vs|] a ins op H; simpl in H; [|discriminate].
+  destruct (Nat.eqb_spec (length vs) 0) as [E|E]; [discriminate|].
+  apply bind_ok in H. destruct H as [outs [Ho H]]. inversion H; subst. clear H.
+  exists vs. split; [reflexivity|]. split; [intros ->; apply E; reflexivity|]. split; [reflexivity|].
+  exists outs. exact Ho.
+Qed.
+
+(* ... and raises ValueError on everything else: pytree-valued values, scalar (rank-0) values, and any
+   specification that is illegal for some leaf (axes duplicated after normalisation, incompatible
+   sizes, or - strict class - a shape change) *)
+Theorem ctor_rejects_l : forall cls v a ins,
+  match v with
+  | VTree => True
+  | VLeaf vs => length (axis_tuple (length vs) a) = length vs /\
+                ~ legal_spec cls vs (axis_tuple (length vs) a) ins
+  end ->
+  Diag_ctor cls v a ins = Err ValueError.
+Proof.
+  intros cls [vs|] a ins H; [|reflexivity]. destruct H as [Hlen Hn].
+  destruct (Diag_ctor cls (VLeaf vs) a ins) as [op|e] eqn:Ec.
+  - exfalso. apply Hn. pose proof Ec as Ec'. apply ctor_ok_fields in Ec'.
+    destruct Ec' as (vs' & Ev & _ & Eop & _). inversion Ev; subst vs'. subst op.
+    apply (ctor_iff cls vs a ins Hlen). exact Ec.
+  - f_equal. unfold Diag_ctor in Ec. destruct (Nat.eqb_spec (length vs) 0) as [E|E]; [congruence|].
+    unfold d_out_structure in Ec. cbn [d_cls d_vshape d_axes d_in] in Ec.
+    destruct (mapM _ ins) as [outs|e'] eqn:Em; cbn [bind] in Ec; [discriminate|]. inversion Ec; subst e'.
+    apply mapM_err in Em. destruct Em as [sh [_ Hsh]]. unfold leaf_out in Hsh.
+    destruct (leaf_plan cls vs _ sh) as [pl|e'] eqn:Ep; cbn [bind] in Hsh; [discriminate|]. inversion Hsh; subst e'.
+    apply (leaf_plan_err_kind _ _ _ _ _ Hlen Ep).
+Qed.
+
+(* the scalar forms of axis_destination always have the right length *)
+Lemma axis_tuple_int_length : forall nd a, length (axis_tuple nd (AInt a)) = nd.
+Proof. intros. apply scalar_axes_length. Qed.
+
+(* ========================================================================================== *)
+(* 8. the strict class = the broadcast class restricted to shape-preserving specifications *)
+
+Lemma leaf_plan_strict : forall vs axes sh,
+  leaf_plan DStrict vs axes sh =
+  bind (leaf_plan DBroadcast vs axes sh) (fun pl =>
+  if shape_eqb (p_out pl) sh then Ok pl else Err ValueError).
+Proof.
+  intros. unfold leaf_plan.
+  destruct (normalize_axes axes (length sh)) as [ax|e]; [|reflexivity]. cbn [bind].
+  destruct (lr_dims ax (length sh)) as [lr|e]; [|reflexivity]. cbn [bind].
+  destruct (moveaxis_perm _ _ _) as [p|e]; [|reflexivity]. cbn [bind].
+  destruct (broadcast_shapes _ _) as [out|e]; reflexivity.
+Qed.
+
+Lemma leaf_out_strict : forall vs axes sh o,
+  leaf_out DStrict vs axes sh = Ok o <-> (leaf_out DBroadcast vs axes sh = Ok o /\ o = sh).
+Proof.
+  intros. unfold leaf_out. rewrite leaf_plan_strict.
+  destruct (leaf_plan DBroadcast vs axes sh) as [pl|e]; cbn [bind]; [|split; [discriminate | intros [H _]; discriminate]].
+  destruct (shape_eqb (p_out pl) sh) eqn:E; cbn [bind].
+  - apply shape_eqb_eq in E. split; [intros H; inversion H; subst; split; [reflexivity | reflexivity]|].
+    intros [H _]. exact H.
+  - split; [discriminate|]. intros [H Eo]. inversion H; subst.
+    assert (shape_eqb (p_out pl) (p_out pl) = true) by (apply shape_eqb_eq; reflexivity). congruence.
+Qed.
+
+Lemma out_structure_strict : forall vs axes ins outs,
+  mapM (leaf_out DStrict vs axes) ins = Ok outs <->
+  (mapM (leaf_out DBroadcast vs axes) ins = Ok ins /\ outs = ins).
+Proof.
+  intros vs axes. induction ins as [|sh ins IH]; intros outs; simpl.
+  - split; [intros H; inversion H; auto | intros [_ ->]; reflexivity].
+  - rewrite !bind_ok. split.
+    + intros [o [Ho H]]. apply bind_ok in H. destruct H as [os [Hos H]]. inversion H; subst.
+      apply leaf_out_strict in Ho. destruct Ho as [Ho ->]. apply IH in Hos. destruct Hos as [Hos ->].
+      split; [|reflexivity]. exists sh. split; [exact Ho|]. rewrite Hos. reflexivity.
+    + intros [[o [Ho H]] ->]. apply bind_ok in H. destruct H as [os [Hos H]]. inversion H; subst.
+      exists sh. split; [apply leaf_out_strict; split; [exact Ho | reflexivity]|].
+      rewrite bind_ok. exists ins. split; [apply IH; split; [exact Hos | reflexivity] | reflexivity].
+Qed.
+
+Theorem strict_iff_shape_preserving : forall v a ins,
+  (exists op, Diag_ctor DStrict v a ins = Ok op) <->
+  (exists op', Diag_ctor DBroadcast v a ins = Ok op' /\ d_out_structure op' = Ok ins).
+Proof.
+  intros [vs|] a ins; simpl; [|split; [intros [? H] | intros [? [H _]]]; discriminate].
+  destruct (Nat.eqb_spec (length vs) 0) as [E|E]; [split; [intros [? H] | intros [? [H _]]]; discriminate|].
+  unfold d_out_structure. cbn [d_cls d_vshape d_axes d_in]. split.
+  - intros [op H]. apply bind_ok in H. destruct H as [outs [Ho _]].
+    apply out_structure_strict in Ho. destruct Ho as [Ho _].
+    eexists. rewrite Ho. cbn [bind]. split; [reflexivity|]. cbn [d_cls d_vshape d_axes d_in]. exact Ho.
+  - intros [op' [H Ho]]. apply bind_ok in H. destruct H as [outs [Hb Eop]]. inversion Eop; subst op'.
+    cbn [d_cls d_vshape d_axes d_in] in Ho.
+    assert (Hs : mapM (leaf_out DStrict vs (axis_tuple (length vs) a)) ins = Ok ins)
+      by (apply out_structure_strict; split; [exact Ho | reflexivity]).
+    rewrite Hs. eexists; reflexivity.
+Qed.
+
+Theorem strict_out_structure : forall v a ins op,
+  Diag_ctor DStrict v a ins = Ok op -> d_out_structure op = Ok ins.
+Proof.
+  intros v a ins op H. apply ctor_ok_fields in H. destruct H as (vs & _ & _ & Eop & outs & Ho).
+  subst op. unfold d_out_structure in *. cbn [d_cls d_vshape d_axes d_in] in *.
+  pose proof Ho as Ho'. apply out_structure_strict in Ho'. destruct Ho' as [_ ->]. exact Ho.
+Qed.
+
+(* ========================================================================================== *)
+(* 9. pytrees: every leaf is treated on its own (its own rank normalises the axes) *)
+
+Lemma mapM_app : forall (A B : Type) (f : A -> res B) l m,
+  mapM f (l ++ m) = bind (mapM f l) (fun a => bind (mapM f m) (fun b => Ok (a ++ b))).
+Proof.
+  intros A B f. induction l as [|x l IH]; intros m; simpl.
+  - destruct (mapM f m); reflexivity.
+  - destruct (f x) as [b|e]; [|reflexivity]. simpl. rewrite IH.
+    destruct (mapM f l) as [bs|e]; [|reflexivity]. simpl. destruct (mapM f m); reflexivity.
+Qed.
+
+Section Tree.
+  Variable K : Type.
+  Variable k0 : K.
+  Variable kmul : K -> K -> K.
+  Notation getK := (get K k0).
+
+  (* what "multiplies the leaf by the values laid along the destination axes, with NumPy
+     broadcasting" means for one leaf x with result y *)
+  Definition leaf_spec (cls : dclass) (d : arr K) (axes : list Z) (x y : arr K) : Prop :=
+    let vs := ashape d in
+    let sh := ashape x in
+    let ax := map (norm_axis (length sh)) axes in
+    exists L R,
+      let T := L + R + length sh in
+      let axn := shifted L ax in
+      NoDup ax /\ lr_dims ax (length sh) = Ok (L, R) /\
+      Forall2 compat (dspec vs axn T) (xpad sh L R) /\
+      ashape y = zipw bmax (dspec vs axn T) (xpad sh L R) /\
+      (cls = DStrict -> ashape y = sh) /\
+      wf_arr y /\
+      forall I, in_range (ashape y) I ->
+        getK y I = kmul (getK d (d_index vs axn I)) (getK x (x_index sh L I)).
+
+  Lemma mv_leaf_defined : forall cls (d x : arr K) axes o,
+    leaf_out cls (ashape d) axes (ashape x) = Ok o ->
+    exists y, mv_leaf K k0 kmul cls d axes x = Ok y /\ ashape y = o.
+  Proof.
+    intros cls d x axes o H. unfold leaf_out in H. apply bind_ok in H. destruct H as [pl [Hpl Ho]].
+    inversion Ho; subst. unfold mv_leaf. rewrite Hpl. cbn [bind]. eexists. split; reflexivity.
+  Qed.
+
+  Lemma diag_mv_leaves : forall cls (d : arr K) axes (x : list (arr K)) outs,
+    length axes = length (ashape d) ->
+    mapM (leaf_out cls (ashape d) axes) (map ashape x) = Ok outs ->
+    exists y, mapM (mv_leaf K k0 kmul cls d axes) x = Ok y /\ map ashape y = outs /\
+              Forall2 (leaf_spec cls d axes) x y.
+  Proof.
+    intros cls d axes x outs Hlen. revert outs. induction x as [|a x IH]; intros outs H; simpl in H.
+    - inversion H. exists []. repeat split. constructor.
+    - apply bind_ok in H. destruct H as [o [Ho H]]. apply bind_ok in H. destruct H as [os [Hos H]].
+      inversion H; subst. destruct (mv_leaf_defined _ _ _ _ _ Ho) as [y [Hy Ey]].
+      destruct (IH os Hos) as [ys [Hys [Eys HF]]].
+      exists (y :: ys). simpl. rewrite Hy. cbn [bind]. rewrite Hys. cbn [bind].
+      split; [reflexivity|]. split; [simpl; congruence|]. constructor; [|exact HF].
+      apply (mv_leaf_elementwise K k0 kmul cls d a axes y Hlen Hy).
+  Qed.
+
+  Theorem diag_mv_elementwise : forall cls v a ins op (d : arr K) (x : list (arr K)),
+    Diag_ctor cls v a ins = Ok op -> length (d_axes op) = length (d_vshape op) ->
+    ashape d = d_vshape op -> map ashape x = ins ->
+    exists y, diag_mv K k0 kmul op d x = Ok y /\ d_out_structure op = Ok (map ashape y) /\
+              Forall2 (leaf_spec cls d (d_axes op)) x y.
+  Proof.
+    intros cls v a ins op d x Hc Hlen Hd Hx.
+    destruct (ctor_ok_fields _ _ _ _ _ Hc) as (vs & _ & _ & Eop & outs & Ho).
+    subst op. cbn [d_axes d_vshape d_cls d_in] in *. unfold d_out_structure in *.
+    cbn [d_axes d_vshape d_cls d_in] in *. subst vs. rewrite <- Hx in Ho.
+    destruct (diag_mv_leaves cls d _ x outs Hlen Ho) as [y [Hy [Ey HF]]].
+    exists y. unfold diag_mv. cbn [d_axes d_cls]. split; [exact Hy|]. split; [|exact HF].
+    rewrite Ey. rewrite <- Hx. exact Ho.
+  Qed.
+
+  (* leaves do not interact: a pytree is processed leaf by leaf *)
+  Lemma diag_mv_app : forall op (d : arr K) x x',
+    diag_mv K k0 kmul op d (x ++ x') =
+    bind (diag_mv K k0 kmul op d x) (fun y => bind (diag_mv K k0 kmul op d x') (fun y' => Ok (y ++ y'))).
+  Proof. intros. unfold diag_mv. apply mapM_app. Qed.
+
+  Lemma diag_mv_deterministic : forall op (d : arr K) x y y',
+    diag_mv K k0 kmul op d x = Ok y -> diag_mv K k0 kmul op d x = Ok y' -> y = y'.
+  Proof. intros. congruence. Qed.
+End Tree.
+
+(* ========================================================================================== *)
+(* 10. DiagonalOperator.as_matrix is the dense matrix of mv (columns = images of the basis vectors) *)
+
+Lemma combine_app_short : forall (A B : Type) (l l' : list A) (m : list B), length l = length m ->
+  combine (l ++ l') m = combine l m.
+Proof.
+  intros A B. induction l as [|a l IH]; intros l' [|b m] H; simpl in *; try lia.
+  - destruct l'; reflexivity.
+  - f_equal. apply IH. lia.
+Qed.
+
+Lemma clip_in_range : forall sh I, in_range sh I -> map (fun q => clip (fst q) (snd q)) (combine sh I) = I.
+Proof.
+  intros sh I H. induction H as [|i n I s Hi HF IH]; [reflexivity|]. simpl. rewrite IH. f_equal.
+  unfold clip. destruct (Nat.eqb_spec n 1); lia.
+Qed.
+
+Lemma bidx_padded_self : forall sh e I, in_range sh I -> bidx (sh ++ ones e) I = I.
+Proof.
+  intros sh e I H. unfold bidx. pose proof (in_range_length _ _ H) as Hl.
+  rewrite app_length. replace (length I - (length sh + length (ones e))) with 0 by lia. simpl.
+  rewrite combine_app_short by lia. apply clip_in_range. exact H.
+Qed.
+
+Lemma ravel_app_short : forall s e I, length I = length s -> ravel (s ++ ones e) I = ravel s I.
+Proof.
+  induction s as [|n s IH]; intros e I H.
+  - destruct I; [|discriminate]. simpl. destruct (ones e); reflexivity.
+  - destruct I as [|i I]; [discriminate|]. simpl. rewrite prod_app_ones. rewrite IH by (simpl in H; lia). reflexivity.
+Qed.
+
+Lemma strict_plan_fields : forall vs axes sh pl, leaf_plan DStrict vs axes sh = Ok pl ->
+  p_out pl = sh /\ p_xshape pl = sh ++ ones (p_R pl).
+Proof.
+  intros vs axes sh pl H. unfold leaf_plan in H.
+  destruct (normalize_axes axes (length sh)) as [ax|e]; [|discriminate]. cbn [bind] in H.
+  destruct (lr_dims ax (length sh)) as [lr|e]; [|discriminate]. cbn [bind] in H.
+  destruct (moveaxis_perm _ _ _) as [p|e]; [|discriminate]. cbn [bind] in H.
+  destruct (broadcast_shapes _ _) as [out|e]; [|discriminate]. cbn [bind] in H.
+  destruct (shape_eqb out sh) eqn:E; [|discriminate]. inversion H; subst. cbn [p_out p_xshape p_R].
+  split; [apply shape_eqb_eq; exact E | reflexivity].
+Qed.
+
+Section MatrixD.
+  Variable K : Type.
+  Variables k0 k1 : K.
+  Variable kmul : K -> K -> K.
+  Hypothesis kmul_0_r : forall v, kmul v k0 = k0.
+  Hypothesis kmul_1_r : forall v, kmul v k1 = v.
+  Notation getK := (get K k0).
+
+  Definition zipk (a b : list K) : list K := map (fun q => kmul (fst q) (snd q)) (combine a b).
+
+  Lemma zipk_maps : forall (A : Type) (f g : A -> K) l,
+    zipk (map f l) (map g l) = map (fun i => kmul (f i) (g i)) l.
+  Proof. intros A f g. induction l as [|a l IH]; [reflexivity|]. unfold zipk in *. simpl. rewrite IH. reflexivity. Qed.
+
+  Lemma zipk_app : forall a a' b b', length a = length b -> zipk (a ++ a') (b ++ b') = zipk a b ++ zipk a' b'.
+  Proof.
+    induction a as [|x a IH]; intros a' [|y b] b' H; simpl in H; try lia; [reflexivity|].
+    unfold zipk in *. simpl. f_equal. apply IH. lia.
+  Qed.
+
+  (* on one leaf the strict operator multiplies the row-major data entry by entry by the vector
+     that as_matrix puts on the diagonal *)
+  Lemma mv_leaf_strict_data : forall (d x : arr K) axes dv, wf_arr x ->
+    diag_leaf_vector K k0 d axes (ashape x) = Ok dv ->
+    exists y, mv_leaf K k0 kmul DStrict d axes x = Ok y /\ ashape y = ashape x /\
+              adata y = zipk dv (adata x) /\ length dv = length (adata x).
+  Proof.
+    intros d x axes dv Hwf H. unfold diag_leaf_vector in H. apply bind_ok in H. destruct H as [pl [Hpl Hdv]].
+    destruct (strict_plan_fields _ _ _ _ Hpl) as [Eo Ex].
+    unfold mv_leaf. rewrite Hpl. cbn [bind]. eexists. split; [reflexivity|].
+    inversion Hdv as [Edv]. clear Hdv. rewrite Eo, Ex.
+    set (d' := reshaped_diagonal K k0 pl d (length (ashape x))).
+    unfold mul_arr, broadcast_to. cbn [ashape adata]. split; [reflexivity|]. split.
+    - assert (Ed : adata x = map (getK x) (indices (ashape x))) by (symmetry; apply (get_data K k0 x Hwf)).
+      etransitivity; [|rewrite Ed, zipk_maps; reflexivity]. apply map_ext_in. intros I HI.
+      apply indices_in_range in HI. f_equal. rewrite bidx_padded_self by exact HI.
+      unfold get. cbn [ashape adata]. rewrite ravel_app_short by (apply in_range_length; exact HI). reflexivity.
+    - rewrite map_length, indices_length. symmetry. exact Hwf.
+  Qed.
+
+  Lemma diag_mv_strict_flat : forall (d : arr K) axes (x : list (arr K)) dvs, Forall wf_arr x ->
+    mapM (diag_leaf_vector K k0 d axes) (map ashape x) = Ok dvs ->
+    exists y, mapM (mv_leaf K k0 kmul DStrict d axes) x = Ok y /\
+              flat K y = zipk (concat dvs) (flat K x) /\ length (concat dvs) = length (flat K x).
+  Proof.
+    intros d axes. induction x as [|a x IH]; intros dvs Hwf H; simpl in H.
+    - inversion H. exists []. repeat split.
+    - apply bind_ok in H. destruct H as [dv [Hdv H]]. apply bind_ok in H. destruct H as [dvs' [Hdvs H]].
+      inversion H; subst. inversion Hwf as [|? ? Hwa Hwx]; subst.
+      destruct (mv_leaf_strict_data d a axes dv Hwa Hdv) as [y [Hy [_ [Ey El]]]].
+      destruct (IH dvs' Hwx Hdvs) as [ys [Hys [Eys Els]]].
+      exists (y :: ys). simpl. rewrite Hy. cbn [bind]. rewrite Hys. cbn [bind]. split; [reflexivity|].
+      unfold flat in *. simpl. rewrite Ey, Eys. split; [symmetry; apply zipk_app; exact El|].
+      rewrite !app_length. congruence.
+  Qed.
+
+  Lemma zipk_basis : forall dv n j, length dv = n ->
+    zipk dv (basis K k0 k1 n j) = map (fun i => if j =? i then nth j dv k0 else k0) (seq 0 n).
+  Proof.
+    intros dv n j Hl. rewrite <- (map_nth_seq K k0 dv) at 1. rewrite Hl. unfold basis. rewrite zipk_maps.
+    apply map_ext. intros i. rewrite (Nat.eqb_sym j i).
+    destruct (Nat.eqb_spec i j) as [->|_]; [apply kmul_1_r | apply kmul_0_r].
+  Qed.
+
+  (* C04 for the diagonal operator: the override equals the generic column-by-column construction *)
+  Theorem diag_as_matrix_l : forall op (d : arr K) m, d_cls op = DStrict ->
+    diag_as_matrix K k0 op d = Ok m ->
+    columns K k0 k1 (diag_mv K k0 kmul op d) (d_in op) = Ok m.
+  Proof.
+    intros op d m Hcls H. unfold diag_as_matrix in H. apply bind_ok in H. destruct H as [dv [Hdv Em]].
+    inversion Em; subst m. clear Em. unfold diag_vector in Hdv. apply bind_ok in Hdv.
+    destruct Hdv as [dvs [Hdvs Edv]]. inversion Edv; subst dv. clear Edv.
+    set (s := d_in op) in *. set (n := tree_size s).
+    assert (Hn : length (concat dvs) = n).
+    { destruct (unflat_conforms K s (basis K k0 k1 n 0) (basis_length K k0 k1 n 0)) as [C1 C2].
+      rewrite <- C1 in Hdvs. destruct (diag_mv_strict_flat d _ _ dvs C2 Hdvs) as [y [_ [_ El]]].
+      rewrite El. rewrite flat_unflat by apply basis_length. apply basis_length. }
+    unfold columns, diag_of. fold n. rewrite Hn. apply mapM_map. intros j _.
+    destruct (unflat_conforms K s (basis K k0 k1 n j) (basis_length K k0 k1 n j)) as [C1 C2].
+    pose proof Hdvs as Hdvs'. rewrite <- C1 in Hdvs'.
+    destruct (diag_mv_strict_flat d _ _ dvs C2 Hdvs') as [y [Hy [Ey _]]].
+    unfold diag_mv. rewrite Hcls. rewrite Hy. cbn [bind]. f_equal. rewrite Ey.
+    rewrite flat_unflat by apply basis_length. apply zipk_basis. exact Hn.
+  Qed.
+End MatrixD.
+
+(* ========================================================================================== *)
+(* 11. DiagonalInverseOperator *)
+
+(* the inverse is constructible exactly when the operator was (same class, same axis tuple) *)
+Lemma inverse_ctor_same : forall v a ins op, Diag_ctor DStrict v a ins = Ok op -> Diag_inverse_ctor op = Ok op.
+Proof.
+  intros v a ins op H. pose proof H as H'. apply ctor_ok_fields in H'.
+  destruct H' as (vs & Ev & Hne & Eop & outs & Ho). subst op v. unfold Diag_inverse_ctor, Diag_ctor.
+  cbn [d_vshape d_axes d_in axis_tuple]. destruct (Nat.eqb_spec (length vs) 0) as [E|E].
+  - destruct vs; [congruence | discriminate].
+  - rewrite Ho. reflexivity.
+Qed.
+
+Section Inverse.
+  Variable K : Type.
+  Variables k0 k1 : K.
+  Variable kmul : K -> K -> K.
+  Variable kis0 : K -> bool.
+  Variable kinv : K -> K.
+  Hypothesis kis0_spec : forall v, kis0 v = true <-> v = k0.
+  Hypothesis kmul_0_l : forall v, kmul k0 v = k0.
+  Hypothesis kinv_l : forall v, v <> k0 -> kmul (kinv v) v = k1.
+
+  (* the pseudo-inverse value: 0 on zeros, a left inverse elsewhere (Moore-Penrose for a diagonal) *)
+  Lemma pinv_mul : forall v, kmul (pinv K k0 kis0 kinv v) v = if kis0 v then k0 else k1.
+  Proof.
+    intros v. unfold pinv. destruct (kis0 v) eqn:E; [apply kmul_0_l|].
+    apply kinv_l. intros Hv. apply kis0_spec in Hv. congruence.
+  Qed.
+
+  Lemma inverse_values_shape : forall d, ashape (inverse_values K k0 kis0 kinv d) = ashape d.
+  Proof. reflexivity. Qed.
+
+  (* .I.diagonal[J] = where(d[J] != 0, 1/d[J], 0) at every multi-index *)
+  Lemma inverse_values_get : forall d J, in_range (ashape d) J -> wf_arr d ->
+    get K k0 (inverse_values K k0 kis0 kinv d) J = pinv K k0 kis0 kinv (get K k0 d J).
+  Proof.
+    intros d J HJ Hwf. unfold get, inverse_values. cbn [ashape adata].
+    destruct (nth_ravel_indices _ _ HJ) as [Hlt _]. unfold wf_arr in Hwf.
+    rewrite (nth_indep _ k0 (pinv K k0 kis0 kinv k0)) by (rewrite map_length; lia).
+    apply map_nth.
+  Qed.
+End Inverse.
